@@ -292,6 +292,8 @@ def replay(case):
 def classify(case):
     keep, removed = model(case)
     classes = [f"buffer={case['buffer']}"]
+    if case.get("idsep"):
+        classes.append("span_ids_with_punctuation")
     if case.get("dups"):
         classes.append("repeated_span_ids")
         if any(str(d["parent"]).startswith("ghost") for d in case["dups"]):
@@ -393,6 +395,21 @@ def case_strategy():
         if draw(st.integers(0, 2)) == 0:
             case["empty_roots"] = sorted(draw(st.sets(
                 st.integers(0, nt - 1), min_size=1, max_size=nt)))
+        sep = draw(st.sampled_from(["", "", "", ",", " ", "'", "%", '"',
+                                    ";"]))
+        if sep:
+            # span ids are arbitrary strings: composite ids "j0,s1" etc.
+            import re
+
+            def ren(x):
+                return re.sub(r"^(j\d+)s", lambda m: m.group(1) + sep + "s",
+                              x) if isinstance(x, str) else x
+            for t in traces:
+                for sp in t["spans"]:
+                    sp[0], sp[1] = ren(sp[0]), ren(sp[1])
+            for d in case.get("dups", []):
+                d["parent"] = ren(d["parent"])
+            case["idsep"] = sep
         return case
 
     return build()
